@@ -15,6 +15,7 @@ mod c12;
 mod c13;
 mod c11_live;
 mod c15;
+mod c16;
 
 pub fn run(engine: &str, toks: Vec<Tok>) -> Vec<Tok> {
     match engine {
@@ -30,6 +31,7 @@ pub fn run(engine: &str, toks: Vec<Tok>) -> Vec<Tok> {
         "c06_encode" => c06::encode(toks),
         "c07_run" => c07::run(toks),
         "c08_run" => c08::run(toks),
+        "c16_run" => c16::run(toks),
         "c18_session" => c18::session(toks),
         "c12_extract" => c12::extract(toks),
         "c12_peek" => c12::peek(toks),
